@@ -503,9 +503,11 @@ FMAX = z3.Real("FLOAT_MAX")
 class SafeSubArray(Contract):
     """ops.array._safesub(x, y) (array paths): for finite operands equals x - y; never NaN unless both operands are +inf
     (inf - inf, the one undefined form: known finding C15/safe-ops-undefined-forms); in particular safesub(x, -inf) is not
-    NaN for any x -- the case the op exists for.  np.clip(v, None, max) is modelled as min(v, FLOAT_MAX) on extended reals."""
+    NaN for any x -- the case the op exists for.  np.clip(v, None, max) is modelled as min(v, FLOAT_MAX) on extended reals.
+    Also an obligation of C11: the plate rule of adjoint_reduce divides by SAFE_BINARY_INVERSES[product] -- in the
+    (logaddexp, add) semiring this very function -- and the contract of that rule relies on it being the inverse of add."""
 
-    props = ("C15",)
+    props = ("C15", "C11")
     file = "funsor/ops/array.py"
     qualname = "_safesub"
     total = True
